@@ -1,7 +1,7 @@
 (* BoolText.v — the Boolean algebra of filters, from the path text: a filter step selects a SUBSEQUENCE of the members of the
    value it is applied to (elements in index order, member values in ascending key order: `members`), namely those whose
    verdict is true; so `||` selects the union, `&&` the intersection, `!` the complement — as sets AND in member order. *)
-From JP Require Import Peg Grammar Slice Text Tree Actions Json Eval WF Spec SortFacts EvalInv1 EvalInv4 EvalTop EndToEnd Codec KeyDefs KeyParse IdxParse SliceParse UnionParse WildParse RecParse ChainParse SpacePath FunParse AggParse FiltParse CmpParse CmpSpace NegFilt LitParse RootOp RegexOp QueryParse FiltSpace FiltChain ChainAddr FunAddr AggAddr FiltAddr CmpAddr QueryAddr FiltChainAddr.
+From JP Require Import Peg Grammar Slice Text Tree Actions Json Eval WF Spec SortFacts EvalInv1 EvalInv4 EvalTop EndToEnd Codec KeyDefs KeyParse IdxParse SliceParse UnionParse WildParse RecParse ChainParse SpacePath FunParse AggParse FiltParse CmpParse CmpSpace NegFilt LitParse RootOp RegexOp QueryParse FiltSpace QuerySpace FiltChain ChainAddr FunAddr AggAddr FiltAddr CmpAddr QueryAddr FiltChainAddr.
 From Coq Require Import Lia.
 Open Scope list_scope.
 
@@ -58,13 +58,14 @@ Section BoolText.
     | FN i => negb (reaches i v)
     | FC i o lit | FCS i _ _ o _ _ lit => ctest i o (lit_num parse_float lit) v
     | FQ d => dnf_test root vals d v
+    | FQS _ d => dnf_test root vals (unspace_dnf d) v
     | FES neg _ _ i _ => if neg then negb (reaches i v) else reaches i v
     | _ => false
     end.
   Lemma filter_step_selects root x lv : is_filt x = true ->
     nav1f root x lv = filter (fun m => verdict root x (kids (snd lv)) (snd m)) (members lv).
   Proof.
-    destruct x as [y|i|i o lit|i|d|y|i g0 a o b g1 lit|neg g0 gn i g1]; intros H; try discriminate H; cbn [FiltChainAddr.nav1f verdict];
+    destruct x as [y|i|i o lit|i|d|y|i g0 a o b g1 lit|neg g0 gn i g1|g0' d']; intros H; try discriminate H; cbn [FiltChainAddr.nav1f verdict];
       try (rewrite navf_navp); try (destruct neg; try (rewrite navf_navp)); apply navp_filter.
   Qed.
 
@@ -121,7 +122,7 @@ Section BoolText.
     (forall xs, nav1f root x (p, VArr xs) =
        flat_map (fun iv : Z * value => if verdict root x xs (snd iv) then [(p ++ [PIdx (fst iv)], snd iv)] else []) (index_list xs 0)).
   Proof.
-    destruct x as [y|i|i o lit|i|d|y|i g0 a o b g1 lit|neg g0 gn i g1]; intros H; try discriminate H; split; intros; try reflexivity; destruct neg; reflexivity.
+    destruct x as [y|i|i o lit|i|d|y|i g0 a o b g1 lit|neg g0 gn i g1|g0' d']; intros H; try discriminate H; split; intros; try reflexivity; destruct neg; reflexivity.
   Qed.
   (* a selected member is a member, and the selection keeps the members' order *)
   Theorem selection_is_subsequence root x lv : is_filt x = true ->
